@@ -10,7 +10,7 @@ Structure of the argument (DESIGN section 4):
  (E) end to end       the real `resolve_object_constraints` (driver `_apply_constraints_iteratively`
                       included, no stub except the grid accessors) on a catalogue of constraint-system
                       structures with SYMBOLIC sizes, coordinates, margins and offsets, in every order
-                      of the constraint list (sampled above 24 orders in the quick tier): on every
+                      of the constraint list (sampled above 12 orders in the quick tier): on every
                       exit without errors the whole C26 post-condition is proved for the returned
                       slices: inside the volume, positive size, declared sizes, every constraint clause,
                       unconstrained axes span the volume.  This is the driver exit obligation
@@ -74,11 +74,11 @@ ASSUMPTIONS = [
     "lifting from the enumerated system structures to arbitrary constraint lists is the pencil argument in the module docstring",
 ]
 MIN_OBLIGATIONS = {"quick": 11000, "thorough": 20000}
-LEVEL_TEXT = "Deductive proof, for all integer and real parameter values, of the per-rule contracts (every known/unknown cell pattern) and of the full C26 post-condition on every non-error exit of the real resolve_object_constraints for a catalogue of constraint-system structures in all (quick: up to 24) constraint orders"
+LEVEL_TEXT = "Deductive proof, for all integer and real parameter values, of the per-rule contracts (every known/unknown cell pattern) and of the full C26 post-condition on every non-error exit of the real resolve_object_constraints for a catalogue of constraint-system structures in all (quick: up to 12) constraint orders"
 LEVEL_NOTE = "structures enumerated (<= 3 objects + volume, <= 4 constraints); grid accessors by contract; general systems by a stated pencil argument; random concrete systems through the unmodified code as a bounded cross-check"
 BOUNDED_RULE = "bounded parts: (gridstub) SpecGrid == real RectilinearGrid on enumerated arguments; (random) seeded random concrete systems run through the real code, every success judged by the C26 oracle"
 
-E2E_CAP = {"quick": 24, "thorough": 120}
+E2E_CAP = {"quick": 12, "thorough": 120}
 
 
 def _gridstub(c, inp):
